@@ -181,7 +181,8 @@ pub fn drive_nfs(ops: &str, trace: &str) {
                     Ok(None)
                 }
                 "get_unlocked" => {
-                    let (b, v) = nv::get_base_time_unlocked(time::OffsetDateTime::now_utc()).map_err(io)?;
+                    let now = time::OffsetDateTime::now_utc() + time::Duration::milliseconds(op["off"].as_i64().unwrap_or(0));
+                    let (b, v) = nv::get_base_time_unlocked(now).map_err(io)?;
                     Ok(Some((b, check_pair(b, v))))
                 }
                 x => panic!("harness: nfs op {x}"),
